@@ -6,7 +6,7 @@ from .encoders import encode_multipart
 from .wsgi import make_environ
 
 KINDS = ['ok', 'ok_json_accept', 'notfound', 'notfound_json', 'wrongverb', 'badpath', 'badchunk', 'oversized', 'badmultipart', 'badjson', 'crash', 'raised', 'gen', 'form',
-         'cookie_then_abort', 'head_ok', 'rex', 'typed', 'expires', 'longpath', 'longquery', 'status_str', 'status_int', 'signed', 'urlinfo', 'auth', 'bigform', 'chunked_ok', 'header_case', 'inject_arg', 'notmodified', 'nocontent', 'blog_direct', 'dm_info', 'resp_copy', 'form_fixed', 'sess_mutate', 'qs_reassign', 'api_404', 'api_item', 'neg_cl', 'hugepath']
+         'cookie_then_abort', 'head_ok', 'rex', 'typed', 'expires', 'longpath', 'longquery', 'status_str', 'status_int', 'signed', 'urlinfo', 'auth', 'bigform', 'chunked_ok', 'header_case', 'inject_arg', 'notmodified', 'nocontent', 'blog_direct', 'dm_info', 'resp_copy', 'form_fixed', 'sess_mutate', 'qs_reassign', 'api_404', 'api_item', 'neg_cl', 'hugepath', 'urlbuild', 'manyheaders']
 
 
 _DEFAULT_ERRORS = []
@@ -248,6 +248,24 @@ def make_app(probe=None, config=None, private_errors=False, app=None, foreign=No
         c2 = rq.get_cookie('seen', 'none')
         return 'reassign %s->%s %s->%s' % (q1, q2, c1, c2)
 
+    @app.route('/doc/<id:int>/rev/<rev:int>', name='rev', overwrite=True)
+    def doc_rev(id, rev):
+        return 'doc %d rev %d' % (id, rev)
+
+    @app.route('/see/<n:int>', overwrite=True)
+    def see(n):
+        # reverse routing inside a handler (on a fresh application the first use of url() for that route)
+        p('see:start')
+        return 'see /%s and /%s' % (app.router['rev'].url(id=n, rev=n + 1), app.router[{'/t/<i:int>/<f:float>/<rest:path>'}].url(i=n, f=n + 0.5, rest='a/b'))
+
+    @app.route('/hdrs', overwrite=True)
+    def hdrs():
+        # a handler that looks many header names up (more distinct names than any small memo holds), all different from request to request
+        q = rq.query.get('q', '')
+        tag = rq.headers.get('X-Tag', 'none')
+        found = sum(1 for i in range(150) if rq.headers.get('X-H-%s-%d' % (q, i)) is not None)
+        return 'hdrs %s %s %d' % (q, tag, found)
+
     @app.route('/api/item/<x>', overwrite=True)
     def api_item(x):
         return 'api item %s' % x
@@ -326,6 +344,10 @@ def make_env(kind, n, stream_cls=Stream):
         return _e('POST', '/body', q, stream=stream_cls(wire), content_length=None, headers={'Transfer-Encoding': 'chunked'})
     if kind == 'resp_copy':
         return _e('GET', '/rcopy', q)
+    if kind == 'urlbuild':
+        return _e('GET', '/see/%d' % n, q)
+    if kind == 'manyheaders':
+        return _e('GET', '/hdrs', q, headers=dict({'X-Tag': 't%d' % n, 'X-In': 'in%d' % n}, **{'X-H-%s-%d' % (q[2:], i): 'v' for i in range(0, 150, 7)}))
     if kind == 'qs_reassign':
         return _e('GET', '/reassign', q, headers={'Cookie': 'seen=v%d' % n})
     if kind == 'api_404':
